@@ -91,6 +91,11 @@ def opHistory (inp imp : Json) : Except String Json := do
           | _ => (S.gen w.src w.cfg).map (·.1)
         let victims := reservedHere.filter fun n => !(n ∈ list) && (w.out.files n).isSome
         w := { w with out := victims.foldl (fun o n => applyOp o (.remove n)) w.out }
+      -- a stale reserved-named file that cannot be removed makes finalize_generation fail (build path only; the CLI
+      -- does not clean up): the run is reported as failed and its record is dropped again (fix 2a70fe0)
+      let finalizeFails := build && r.1 == .ok && r.2.1 != .noCommands && (getS st "leftover").toOption.isSome
+      if finalizeFails then w := { w with out := applyOp w.out .removeCache }
+      let r : Res × Action × Out (List Nat × Bool × Bool) (List Nat) := if finalizeFails then (.err, .failed, w.out) else r
       let gen := S.gen w.src w.cfg
       let current := gen.all fun p => w.out.files p.1 == some p.2
       obs := obs.push (obj [("res", jS (resStr r.1)), ("action", jS (actStr r.2.1)),
